@@ -288,6 +288,30 @@ def run_one(item, pid, wdir, profiles):
             if len(a_lines) == len(m_lines):
                 a_lines = [m if (a != m and a.startswith("g ") and m.startswith("g ") and "none" in (a[2:], m[2:])) else a for a, m in zip(a_lines, m_lines)]
         res["exact"] = res.get("exact", True) and (impl["lines"] == model["lines"])
+        dom = lines[0].split()[0]
+        if dom in ("table", "ntable"):
+            # Table: what C17 / C06 fix are the returned indices, which cells are occupied with which values, and the counters
+            # real_size / size; the position of a cell inside its chain, the bucket heads and min_free are layout (the chain
+            # invariants are checked on the crate's own state by the runner's oracle).  Exact agreement is still reported.
+            def tview(ls):
+                out = []
+                for l in ls:
+                    t = l.split(" ")
+                    if t[0] == "i" and len(t) == 5:
+                        out.append(" ".join(t[:4]))
+                    elif t[0] == "s" and len(t) == 4:
+                        out.append(" ".join(t[:3]))
+                    elif t[0] == "dump":
+                        cells = [c for c in l.split(" ")[1][len("cells="):].split(",") if c] if len(t) > 1 else []
+                        out.append("dump " + ",".join(sorted(":".join(c.split(":")[:2]) for c in cells)))
+                    else:
+                        out.append(l)
+                return out
+            a_lines, m_lines = tview(a_lines), tview(m_lines)
+        if dom == "eda":
+            # the arena's node layout (its Debug output) is not part of C20: compare what it prints, evaluates and converts back to
+            ev = lambda ls: [" ;; ".join(x for x in l.split(" ;; ") if not x.startswith("a ")) if l.startswith("a ") else l for l in ls]
+            a_lines, m_lines = ev(a_lines), ev(m_lines)
         if lines[0].startswith("raw"):
             # RawTable: what the property fixes is the map behaviour and the reported length; capacity, the free counter and the
             # status words are a growth / tombstone policy (exact agreement on them is reported in the evidence, not required)
